@@ -159,7 +159,16 @@ def generate(rng: random.Random, tier: str) -> dict:
             ops.append({"op": "COPY", "continue_on_copy": rng.random() < 0.5})
         elif r < 0.78:
             ups = [[round(rng.uniform(-1.0, 2.0), 5) for _ in base_labels] for _ in range(rng.randint(1, 4))]
-            ops.append({"op": "HISTORY", "updates": ups, "index": rng.choice([0, -1, -2, 1])})
+            # "partial": the history comes from a table (DataFrame / csv) that only has the columns of the base
+            # parameters - restoring a record must still leave every expression evaluated
+            ops.append(
+                {
+                    "op": "HISTORY",
+                    "updates": ups,
+                    "index": rng.choice([0, -1, -2, 1]),
+                    "source": rng.choice(["recorded", "recorded", "partial_dataframe", "partial_csv"]),
+                }
+            )
         elif r < 0.83:
             ops.append({"op": "RELOAD", "how": rng.choice(RELOADS)})
         elif r < 0.87:
@@ -689,6 +698,23 @@ class Run:
                         records.append(dict(model.base))
                         updates += 1
                     idx = op["index"]
+                    if op.get("source", "recorded") != "recorded":
+                        import pandas as pd
+
+                        cols = ["iteration", *base_labels]
+                        rows = []
+                        for r in records:
+                            rows.append(
+                                [0.0] + [float(ref_log(r[lab])) if model.non_negative[lab] else float(r[lab]) for lab in base_labels]
+                            )
+                        df = pd.DataFrame(rows, columns=cols)
+                        if op["source"] == "partial_csv":
+                            path = os.path.join(self.sandbox, "partial_history.csv")
+                            df.to_csv(path, index=False)
+                            hist = ParameterHistory.from_csv(path)
+                        else:
+                            hist = ParameterHistory.from_dataframe(df)
+                        rec.probe("history_from_partial_table")
                     if -len(records) <= idx < len(records):
                         params.set_from_history(hist, idx)
                         for lab, v in records[idx].items():
